@@ -83,6 +83,7 @@ type genState struct {
 	nftAddr  string
 	jailed   map[int]bool
 	gone       map[int]bool // validators that withdrew their whole stake
+	taken      map[int]int64 // units of power a validator took back
 	bigTenants []uint64
 	followUps []Event // emitted right after the next begin-block: the actions that would profit from a shadow write
 }
@@ -112,7 +113,7 @@ var ownerPool = []string{
 
 func GenHistory(seed uint64, idx int, p Profile) History {
 	r := NewRng(seed*1000003 + uint64(idx))
-	g := &genState{r: r, p: p, commits: map[int]*Msg{}, former: map[int]int{}, feeders: map[int]int{}, nftOwner: map[uint64]int{}, jailed: map[int]bool{}, gone: map[int]bool{}}
+	g := &genState{r: r, p: p, commits: map[int]*Msg{}, former: map[int]int{}, feeders: map[int]int{}, nftOwner: map[uint64]int{}, jailed: map[int]bool{}, gone: map[int]bool{}, taken: map[int]int64{}}
 	nv := 3 + r.Intn(3)
 	if p.Probono && r.Chance(30) {
 		nv = 6 + r.Intn(2) // the chain runs with constant power 1 per validator: shares of 1/6 need six of them
@@ -721,8 +722,9 @@ func (g *genState) block() {
 				envs = append(envs, Env{Kind: "undelegate", Val: v, Amount: "0"}) // 0 = everything
 				g.gone[v] = true
 				g.jailed[v] = true
-			} else {
-				envs = append(envs, Env{Kind: "undelegate", Val: v, Amount: "1000000"})
+			} else if g.h.Genesis.Powers[v]-g.taken[v] >= 2 {
+				envs = append(envs, Env{Kind: "undelegate", Val: v, Amount: "1000000"}) // one unit of power
+				g.taken[v]++
 			}
 		}
 	}
